@@ -54,6 +54,13 @@ def main(argv=None):
   prop = a.prop.upper()
   seed = int(os.environ.get('VERIF_SEED', '0') or 0)
   modname = find_module(prop)
+  if a.replay:
+    # a case recorded under an interpreter configuration ('<sub>@<cfg>') needs it before jax is imported
+    try:
+      with open(a.replay) as f:
+        os.environ.update(core.config_env(json.load(f)['sub']))
+    except (OSError, KeyError, ValueError):
+      pass
   try:
     assert_repo()
     mod = importlib.import_module(modname)
@@ -82,6 +89,8 @@ def main(argv=None):
   err = None
   try:
     mod.plan(ctx)
+    if hasattr(mod, 'CONFIG_PASSES'):
+      ctx.config_passes(mod.CONFIG_PASSES)
     if hasattr(mod, 'finish'):
       mod.finish(ctx)
   except core.HarnessError as e:
